@@ -88,4 +88,41 @@ def lastSum (log : List (Req × Option SumResp)) : Option SumResp :=
   | some (_, r) => r
   | none => none
 
+/-! ### The text of the checksum file (`_check_md5_of_url`, phylib/io/datasets.py:83-90)
+
+`checksum = download_text_file(url + '.md5').split()[0]` inside `try … except Exception: checksum = None`,
+then `if checksum: return _check_md5(output_path, checksum)`.  A text is a list of code points. -/
+
+/-- `str.isspace` of one code point (CPython `_PyUnicode_IsWhitespace`): what `str.split()` without an
+argument separates on. -/
+def isWhite (c : Nat) : Bool :=
+  (9 ≤ c && c ≤ 13) || (28 ≤ c && c ≤ 32) || c == 0x85 || c == 0xa0 || c == 0x1680 ||
+  (0x2000 ≤ c && c ≤ 0x200a) || c == 0x2028 || c == 0x2029 || c == 0x202f || c == 0x205f || c == 0x3000
+
+/-- `text.split()[0]`: the first whitespace-separated field; `none` = `IndexError` (no field at all:
+an empty or all-whitespace text), which datasets.py:87 turns into "no checksum". -/
+def firstField (text : List Nat) : Option (List Nat) :=
+  match (text.dropWhile isWhite).takeWhile (fun c => !isWhite c) with
+  | [] => none
+  | f => some f
+
+/-- what one GET of `URL + '.md5'` delivers, before it is parsed -/
+inductive SumAnswer where
+  | text (t : List Nat)   -- HTTP 200 with this text
+  | error                 -- non-200 (`raise_for_status()` inside the `try`)
+deriving Repr, DecidableEq
+
+/-- datasets.py:84-90 for one answer.  `render` lists the hash values that some body has together with their
+`hexdigest()` text; a field that renders no listed hash value is the checksum `other` (to be chosen outside
+the hash values of the bodies: such a field matches no file). -/
+def parseSum (render : List (Nat × List Nat)) (other : Nat) : SumAnswer → SumResp
+  | .error => .missing
+  | .text t =>
+    match firstField t with
+    | none => .missing
+    | some f =>
+      match render.find? (fun r => r.2 == f) with
+      | some r => .avail r.1
+      | none => .avail other
+
 end PhyVerif.C20
